@@ -35,7 +35,8 @@ def exhaustive(tier):
 
 def required(tier):
     return {"bundled_facts": 3000, "generated_files": 20, "paths_compared": 100,
-            "battery_answers": 20000, "illformed_cases": 40, "truth_factor_checks": 500}
+            "battery_answers": 20000, "illformed_cases": 40, "truth_factor_checks": 500,
+            "cache_edit_cases": 20}
 
 
 def shards(tier, seed):
@@ -43,6 +44,8 @@ def shards(tier, seed):
     for i in range(4 if tier == "quick" else 12):
         out.append({"kind": "generated", "name": f"gen{i}", "n": 8 if tier == "quick" else 80})
     out.append({"kind": "illformed", "name": "illformed", "n": 1 if tier == "quick" else 6})
+    for i in range(2 if tier == "quick" else 6):
+        out.append({"kind": "cache-edit", "name": f"cache-edit{i}", "n": 6 if tier == "quick" else 40})
     return out
 
 
@@ -62,6 +65,8 @@ def run_shard(spec, rec):
         run_bundled(spec, rec, pint, pintload)
     elif spec["kind"] == "generated":
         run_generated(spec, rec, rng, pint)
+    elif spec["kind"] == "cache-edit":
+        run_cache_edit(spec, rec, rng, pint)
     else:
         run_illformed(spec, rec, rng, pint)
 
@@ -431,6 +436,74 @@ def close(a, b):
         return a == b
     except Exception:  # noqa: BLE001
         return False
+
+
+def run_cache_edit(spec, rec, rng, pint):
+    """The on-disk cache must never outlive the text it was built from: a root file that @imports a
+    second file is loaded with a cache folder, then ONE of the two files is edited (a factor changed, a
+    unit added, a unit removed) and the registry is loaded again with the same cache folder; its answers
+    must equal those of an uncached registry built from the edited files."""
+    tmp = tempfile.mkdtemp(prefix="verif-c10e-")
+    try:
+        for gi in range(spec["n"]):
+            for nitname, nit in NIT.items():
+                g, stm, extra = build_generated(rng)
+                units = [t for t, k in stm if k in ("unit", "prefix")]
+                rest = [t for t, k in stm if k not in ("unit", "prefix")]
+                d = os.path.join(tmp, f"case-{gi}-{nitname}")
+                os.makedirs(d)
+                root, part, cache = os.path.join(d, "root.txt"), os.path.join(d, "part.txt"), os.path.join(d, "cache")
+                cut = rng.randint(1, max(1, len(units) - 1))
+                in_part, in_root = units[:cut], units[cut:]
+
+                def write():
+                    open(part, "w", encoding="utf-8").write("\n".join(in_part) + "\n")
+                    open(root, "w", encoding="utf-8").write("@import part.txt\n" + "\n".join(in_root + rest) + "\n")
+                write()
+                try:
+                    r1 = pint.UnitRegistry(root, non_int_type=nit, cache_folder=cache)
+                    battery(r1, g, extra, nit, rec)     # fill the caches
+                except Exception as e:  # noqa: BLE001
+                    rec.violation("valid-file-refused", {"err": repr(e)[:300], "path": "cache-edit"}, path="cache-edit",
+                                  probe="load")
+                    continue
+                # edit one file: change the factor of a derived unit, add a unit
+                which = rng.choice(("imported", "root"))
+                lines = in_part if which == "imported" else in_root
+                idx = [i for i, ln in enumerate(lines) if "=" in ln and "[" not in ln and not ln.split("=")[0].strip().endswith("-")]
+                if not idx:
+                    rec.count("cache_edit_skipped")
+                    continue
+                i = rng.choice(idx)
+                name, rhs = lines[i].split("=", 1)
+                lines[i] = f"{name}= 3 * {rhs.strip()}" if ";" not in rhs else lines[i]
+                first_unit = units[0].split("=")[0].strip() if not units[0].split("=")[0].strip().endswith("-") else None
+                lines.append(f"zedited{gi} = 7 * {next(c for c, t in g.units.items() if t['is_base'])}")
+                write()
+                try:
+                    r2 = pint.UnitRegistry(root, non_int_type=nit, cache_folder=cache)
+                    r3 = pint.UnitRegistry(root, non_int_type=nit, cache_folder=None)
+                except Exception as e:  # noqa: BLE001
+                    rec.violation("valid-file-refused", {"err": repr(e)[:300], "path": "cache-edit-reload"},
+                                  path="cache-edit", probe="load")
+                    continue
+                g.spell[f"zedited{gi}"] = f"zedited{gi}"
+                g.units[f"zedited{gi}"] = dict(kind="mult", dims={"x": 1}, factor=F(7), root={}, is_base=False,
+                                               symbol=None, aliases=[], name=f"zedited{gi}")
+                a2, a3 = battery(r2, g, extra, nit, rec), battery(r3, g, extra, nit, rec)
+                rec.count("cache_edit_cases")
+                rec.count("paths_compared")
+                rec.case(("cache-edit", spec["seed"], gi, nitname, which), nontrivial=True)
+                for k, v in a3.items():
+                    if a2.get(k) != v:
+                        rec.violation("stale-disk-cache-after-edit", {"edited": which, "probe": str(k),
+                                                                      "cached_registry": str(a2.get(k))[:200],
+                                                                      "uncached_registry": str(v)[:200], "nit": nitname},
+                                      path="cache-edit", probe=k[0], edited=which)
+                        break
+        rec.sample({"cache_edit": "root.txt '@import part.txt' + units; one file edited between two cached loads"})
+    finally:
+        shutil.rmtree(tmp, ignore_errors=True)
 
 
 # ---------------------------------------------------------------------------
